@@ -378,11 +378,18 @@ def run(chk):
                        'what a target type name MEANS (JSON category, value range) is the reviewed table c05_target_info in Spec/C05Spec.v; no target-language compiler is installed',
                        'Swift Unicode.Scalar is taken to have no Codable conformance (standard library)',
                        'the natural Rust spelling (c05_rust_name) is taken as the key under which a user maps a container instance']
-    chk.prepare(need_cli=False)
+    chk.prepare(need_cli=True)
     if not chk.harness_ok:
         return
     quick = chk.tier == 'quick'
     V = Verdicts(chk)
+    if chk.cli_ok:
+        # folder-output mode against the same crates generated alone (lib/multi.py): the type text of every use site must not
+        # depend on what another crate of the run contains (per-run memo of rendered types, prefix decisions, generics of helpers)
+        import multi, c05_sites as _sites
+        nw = 10 if quick else 120
+        wss = [[_sites.rust_items(chk.rng, _sites.plan(chk.rng, 'typescript')) for _ in range(chk.rng.choice([2, 3]))] for _ in range(nw)]
+        multi.independent_crates(chk, wss, multi.facet_types, 'type expressions at their use sites (C05)', swift_prefix='OP')
     phase_prims(chk, V)
     phase_trees(chk, V, 2000 if quick else 30000)
     phase_front(chk, V, 3000 if quick else 60000)
